@@ -18,7 +18,9 @@ survives cache flushes) and the numerical parts (parts.evolve / parts.match retu
 Goals per path of the run:
   product     operators[Target(ep)] == P_n ... P_1 with P_i the stored part of the i-th element of the
               flavour-number path written down independently from the statement (later on the left)
-  once        every needed part was computed and stored exactly once, nothing else was computed
+  once        every needed part was computed and stored exactly once, nothing else was computed; the identity of an
+              evolution part is (origin, target, nf, cliff) with cliff = "not the last segment of the path" (it becomes
+              is_threshold in parts.evolve), so a cliff part is never accepted in place of a non-cliff one or vice versa
   join.error  the error rule of _dotop/join: err(AB) = |A| dB + dA |B| accumulated in join order, None if any is None
 """
 import itertools
@@ -364,11 +366,29 @@ def tensors_equal(a, b):
     return zand(zeq(a[idx] + SR(0), b[idx] + SR(0)) for idx in np.ndindex(a.shape))
 
 
+def path_elements(W, origin, target):
+    """the independently written path; an evolution element is ('seg', a, b, nf, cliff): the segments that end on a matching
+    scale *as a step of the path* (all but the last one) are cliffs, the last one reaches the target and is not - also
+    when the target sits exactly on a matching scale.  cliff is part of the identity of a part (it becomes is_threshold)."""
+    els = oracle_path(W, origin, target)
+    return [e + (i < len(els) - 1,) if e[0] == "seg" else e for i, e in enumerate(els)]
+
+
 def _seg_matches(w, header, el):
-    """does a stored header describe the oracle element el? (cliff is not part of the element's identity)"""
+    """does a stored header describe the oracle element el (including the cliff flag of an evolution)?"""
     if el[0] == "seg":
-        return isinstance(header, w.items.Evolution) and header.nf == el[3] and same(header.origin, el[1]) and same(header.target, el[2])
+        return (isinstance(header, w.items.Evolution) and header.nf == el[3] and bool(header.cliff) == bool(el[4])
+                and same(header.origin, el[1]) and same(header.target, el[2]))
     return isinstance(header, w.items.Matching) and header.hq == el[2] and bool(header.inverse) == bool(el[3]) and same(header.scale, el[1])
+
+
+def _same_header(w, ha, hb):
+    """field-by-field identity of two headers (own comparison, not the dataclass __eq__ under test)"""
+    if type(ha) is not type(hb):
+        return False
+    if isinstance(ha, w.items.Evolution):
+        return ha.nf == hb.nf and bool(ha.cliff) == bool(hb.cliff) and same(ha.origin, hb.origin) and same(ha.target, hb.target)
+    return ha.hq == hb.hq and bool(ha.inverse) == bool(hb.inverse) and same(ha.scale, hb.scale)
 
 
 # ---------------------------------------------------------------------------
@@ -401,7 +421,7 @@ def case_solve(log, nf0, targets, shape=(2, 1, 2, 1), ratios="sym", coincide=(),
         needed = []  # oracle elements over all targets
         per_target = []
         for t, nf in zip(ts, targets):
-            els = oracle_path(W, (mu0, nf0), (t, nf))
+            els = path_elements(W, (mu0, nf0), (t, nf))
             per_target.append(els)
             needed.extend(els)
         ev_writes = eko.parts.writes
@@ -411,14 +431,13 @@ def case_solve(log, nf0, targets, shape=(2, 1, 2, 1), ratios="sym", coincide=(),
         why = []
         allw = [("evolve", h, op) for h, op in ev_writes] + [("match", h, op) for h, op in ma_writes]
         for (ka, ha, _oa), (kb, hb, _ob) in itertools.combinations(allw, 2):
-            if ka == kb and type(ha) is type(hb) and ha == hb:
+            if ka == kb and _same_header(w, ha, hb):
                 ok_once = False
                 why.append("stored twice: %r" % (ha,))
         for el in needed:
             pool = ev_writes if el[0] == "seg" else ma_writes
             n = sum(1 for h, _op in pool if _seg_matches(w, h, el))
-            cl = {bool(h.cliff) for h, _op in pool if _seg_matches(w, h, el)} if el[0] == "seg" else {0}
-            if n < 1 or n != len(cl):
+            if n != 1:
                 ok_once = False
                 why.append("needed element %r stored %d times" % (el[:1] + el[3:], n))
         for kind, h, _op in allw:
@@ -600,7 +619,8 @@ def replay_solve(point, nf0, targets, coincide=()):
     def fake_evolve(eko, recipe):
         calls.append(recipe)
         assert isinstance(recipe, Evolution)
-        return Operator(_tensor_for("E", (recipe.origin, recipe.target, recipe.nf), shape), None)
+        # depends on cliff, as the real parts.evolve does (is_threshold=recipe.cliff)
+        return Operator(_tensor_for("E", (recipe.origin, recipe.target, recipe.nf, bool(recipe.cliff)), shape), None)
 
     def fake_match(eko, recipe):
         calls.append(recipe)
@@ -628,11 +648,11 @@ def replay_solve(point, nf0, targets, coincide=()):
     N = 2 * nfl
     for i, nf in enumerate(targets):
         t2 = lin["t%d" % i] ** 2
-        els = oracle_path(walls, (mu20, nf0), (t2, nf))
+        els = path_elements(walls, (mu20, nf0), (t2, nf))
         prod = np.eye(N)
         for el in els:
             needed.add(el)
-            ten = _tensor_for("E", (el[1], el[2], el[3]), shape) if el[0] == "seg" else _tensor_for("M", (el[1], el[2], bool(el[3])), shape)
+            ten = _tensor_for("E", (el[1], el[2], el[3], bool(el[4])), shape) if el[0] == "seg" else _tensor_for("M", (el[1], el[2], bool(el[3])), shape)
             prod = ten.reshape(N, N) @ prod  # later on the left
         g = got.get((t2, nf))
         if g is None:
@@ -640,12 +660,12 @@ def replay_solve(point, nf0, targets, coincide=()):
         elif not np.allclose(g.reshape(N, N), prod, rtol=1e-9, atol=1e-11):
             bad.append("operator for target (%r, %r) is not the ordered product of the %d parts of its path (max deviation %.3g)"
                        % (t2, nf, len(els), float(np.max(np.abs(g.reshape(N, N) - prod)))))
-    done = [("seg", c.origin, c.target, c.nf) if isinstance(c, Evolution) else ("match", c.scale, c.hq, bool(c.inverse)) for c in calls]
-    full = [d_ + ((c.cliff,) if isinstance(c, Evolution) else ()) for d_, c in zip(done, calls)]
-    if len(set(full)) != len(full):
-        bad.append("a part was computed more than once: %r" % (sorted(full, key=str),))
+    done = [("seg", c.origin, c.target, c.nf, bool(c.cliff)) if isinstance(c, Evolution) else ("match", c.scale, c.hq, bool(c.inverse)) for c in calls]
+    if len(set(done)) != len(done):
+        bad.append("a part was computed more than once: %r" % (sorted(done, key=str),))
     if set(done) != needed:
-        bad.append("computed parts %r differ from the needed parts %r" % (sorted(set(done) - needed, key=str), sorted(needed - set(done), key=str)))
+        bad.append("computed parts %r differ from the needed parts: not needed %r, never computed %r (evolution = (a, b, nf, cliff))"
+                   % (sorted(set(done), key=str), sorted(set(done) - needed, key=str), sorted(needed - set(done), key=str)))
     if bad:
         return {"detail": "walls=%r origin=(%r,%r) targets=%r: %s" % (walls, mu20, nf0, [(lin["t%d" % i] ** 2, nf) for i, nf in enumerate(targets)], "; ".join(bad))}
     return None
@@ -698,7 +718,8 @@ def main():
         "2 targets: %s; 3 targets: %s" % ("all 64 explicit nf pairs per nf0 in {3,4,5,6} plus default-nf pairs" if thorough else "16 selected configurations sharing parts (2 with default target nf)",
                                           "13 selected configurations" if thorough else "1 selected configuration"),
         "masses, matching ratios (walls strictly ordered w1 < w2 < w3), initial scale and all target scales symbolic positive reals; "
-        "coincidences target = wall / target = target / target = initial scale are reached by forking on header equality",
+        "coincidences target = wall / target = target / target = initial scale are reached by forking on header equality; in addition %d two-target "
+        "configurations with one target imposed exactly on a matching scale that the other target crosses (both listing orders)" % (14 if thorough else 6),
         "part tensors of shape %s with independent symbolic entries (matrix products do not commute)" % ("(2,1,2,1), (1,2,1,2) and (2,2,2,2)" if thorough else "(2,1,2,1) and (1,2,1,2)"),
         "error rule: join of 2..%d operators with symbolic errors >= 0, one input without error" % (4 if thorough else 3),
     ]
@@ -729,6 +750,17 @@ def main():
         two = [(4, (None, None)), (6, (None, 3))] + [(a, (b, c)) for a in (3, 4, 5, 6) for b in (3, 4, 5, 6) for c in (3, 4, 5, 6)] + [t for t in two if None in t[1]]
     for nf0, tg in two:
         chk.case("solve.2.%s-%s,%s" % (nf0, tg[0], tg[1]), case_solve, nf0=nf0, targets=list(tg), ratios="fixed")
+    # one target exactly on a matching scale that the other target crosses through the same segment (the two parts differ
+    # only in the cliff flag, i.e. is_threshold), in both listing orders; the equality of the scales is imposed
+    onwall = [(4, (4, 5), ("t0", "w2")), (4, (5, 4), ("t1", "w2")), (5, (5, 4), ("t0", "w2")), (5, (4, 5), ("t1", "w2")),
+              (3, (4, 5), ("t0", "w2")), (3, (5, 4), ("t1", "w2"))]
+    if thorough:
+        onwall += [(6, (6, 5), ("t0", "w3")), (6, (5, 6), ("t1", "w3")), (3, (3, 4), ("t0", "w1")), (3, (4, 3), ("t1", "w1")),
+                   (6, (4, 3), ("t0", "w1")), (6, (3, 4), ("t1", "w1")), (4, (None, 6), ("t0", "w3")), (4, (6, None), ("t1", "w3"))]
+    for nf0, tg, co in onwall:
+        chk.case("solve.onwall.%s-%s,%s.%s=%s" % (nf0, tg[0], tg[1], co[0], co[1]), case_solve, nf0=nf0, targets=list(tg), ratios="fixed", coincide=[co])
+        if thorough:
+            chk.case("solve.onwall.symratios.%s-%s,%s.%s=%s" % (nf0, tg[0], tg[1], co[0], co[1]), case_solve, nf0=nf0, targets=list(tg), coincide=[co])
     nfo = (3, 4, 5, 6, None)
     for nf0 in (3, 4, 5, 6):
         for nff in nfo:
